@@ -233,6 +233,8 @@ def run(ck):
     # a marked atom that opens two or three ring closures, closed in nested, interleaved and mixed order
     edge += ['C[C@]12CCCC[C@H]2CCCC1', 'C[C@]12CCCC[C@H]1CCCC2', 'O[C@@]12CC[C@@H](C)C2CCO1', 'F[C@]1%12CCC[C@@H]%12OCC1', 'F[C@]1%12CCC[C@@H]1OCC%12', '[C@]12(F)CCC2CCC1', '[C@@]12(F)CCC1CCC2',
              'C[C@]123CCC1CCC2CCC3', 'C[C@]123CCC3CCC2CCC1', 'C[C@]123CCC2CCC3CCC1', 'N[C@@]12CC1CC2', 'N[C@@]12CC2CC1', 'C[C@@H]1CC[C@]21CCCO2', 'C[C@@H]1CC[C@]12CCCO2', 'F[C@]12CC(C1)C2', 'F[C@]12CC(C2)C1']
+    # a bond symbol at the opening digit and a direction mark at the closing digit (and the other way round)
+    edge += ['F/C=C-1CCCCC/1C', 'F/C=C-1CCCCC\\1C', 'F/C=C1CCCCC/1C', 'F/C=C/1CCCCC1C', 'F/C=C/1CCCCC-1C', 'F\\C=C-1CCCCC/1C', 'C-1CCCCC/1=C/F', 'C/1CCCCC-1=C/F', 'F/C=C-1CCCC/1', 'F/C=C=1CCCC/1', 'C-1=CCCC/1']
     edge = sorted(set(edge))
     parts.append(('edge', [{'key': s, 's': s} for s in edge], False))
 
